@@ -45,7 +45,7 @@ CHECKS = [
     ("trio/__init__.py", "C15 C14 C17"),
     ("app_wrappers.py", "C17 C05 C14"),
     ("utils.py", "C12 C19 C01 C02 C13 C14 C15 C18 C17"),
-    ("config.py", "C19 C18 C15"),
+    ("config.py", "C19 C18 C15 C13"),
     ("__main__.py", "C19"),
     ("logging.py", "C03 C04 C15"),
     ("events.py", "C07 C01"),
@@ -293,6 +293,9 @@ def main():
     ap.add_argument("--jobs", type=int, default=4)
     ap.add_argument("--files", default="")
     ap.add_argument("--list", action="store_true")
+    ap.add_argument("--redo", default="",
+                    help="file:line:op,... - judge these sites again (after a check was "
+                         "extended); the new result is appended and supersedes the old one")
     a = ap.parse_args()
     muts = enumerate_mutants([g for g in a.files.split(",") if g])
     if a.list:
@@ -313,6 +316,12 @@ def main():
             r = json.loads(l)
             done.add((r["file"], tuple(r["site"])))
     todo = [m for m in muts if (m[0], tuple(m[1])) not in done][: a.n]
+    if a.redo:
+        want = set(a.redo.split(","))
+        old_rs = [json.loads(l) for l in open(rpath)] if os.path.exists(rpath) else []
+        sites = {(r["file"], tuple(r["site"])) for r in old_rs
+                 if f"{r['file']}:{r.get('line')}:{r.get('op')}" in want}
+        todo = [m for m in muts if (m[0], tuple(m[1])) in sites]
     head = sh(["git", "-C", REPO, "rev-parse", "--short", "HEAD"])[1].strip()
     with cf.ThreadPoolExecutor(max_workers=a.par) as ex, open(rpath, "a") as fh:
         for r in ex.map(lambda m: run_one(m, a.jobs), todo):
